@@ -46,7 +46,9 @@ func c04RunSchedChild(s *c04State) string {
 	}
 	cmd := exec.Command(bin, args...)
 	cmd.Env = append(os.Environ(), "C04_CHILD=1")
+	alive := c04KeepAlive(c)
 	out, err := cmd.CombinedOutput()
+	alive()
 	if err != nil {
 		return fmt.Sprintf("FAILED to run %s: %v: %s", bin, err, out)
 	}
